@@ -84,7 +84,22 @@ def torture_sources():
     return out
 
 
+def _many_literals(n, quote="\'\'\'"):
+    """A module with n literals that the layout stages have to set aside (several lines, tabs, trailing blanks), printed at the end."""
+    lines = []
+    for i in range(n):
+        body = ["first\tcolumn   ", "", "", "", "  second line %d\t" % i, "last"] if i % 3 == 0 else ["a\tb", "c   "] if i % 3 == 1 else ["only\ttabs\there"]
+        if len(body) > 1 or quote in ("\'\'\'", '"""'):
+            lines.append(f"s{i} = {quote if len(quote) == 3 else quote * 3}" + "\n".join(body) + f"{quote if len(quote) == 3 else quote * 3}")
+        else:
+            lines.append(f"s{i} = {quote}{body[0]}{quote}")
+    lines.append("print(" + ", ".join(f"repr(s{i})" for i in range(n)) + ")")
+    return "x = 1   \n" + "\n".join(lines) + "\n"
+
+
 LAYOUT_ODDITIES = [
+    # many literals in one module: 10, 11, 12, 25, 101 (placeholders with numbers that are prefixes of one another)
+    _many_literals(10), _many_literals(11), _many_literals(12, '"""'), _many_literals(25), _many_literals(101), _many_literals(13, '"'),
     "x = 1   \ny = 2\t\n\n\n\n\n\nz = 3\n\n\n\n",
     "def f():\n\n\n\n    a = 1\n\n\n\n    return a\n\n\n\n\n\nprint(f())\n",
     "if True:\n\tx = 1\n\tif x:\n\t\ty = 2\nprint(x)\n",
